@@ -25,6 +25,8 @@ def _sig(f):
 def confirm(f):
     """Isolation re-run of one finding in a fresh process."""
     req = {"id": 0, "entry": f["entry"], "attr": f["attr"], "item": f["item"], "want_out": True}
+    if f.get("none_groups"):
+        req["none_groups"] = True
     o1 = C.expand([req], threads=1)[0]
     o2 = C.expand([req], threads=1)[0]
     if o1["status"] == "panic":
@@ -42,6 +44,52 @@ def confirm(f):
         if it["kind"] == "compile_error" and (it.get("msg") is None or not it["msg"].strip()):
             return "empty-error-message", it["text"]
     return None, None
+
+
+FRAG_EXPRS = ["-1", "!false", "&7", "1 + 2", "7", '"s"', "X::new", "*&3", "- -1", "Self::K", "f(1)", "1..2", "|a, b| a == b", "-1i8 as u8",
+              "|a| a", "if true { 1 } else { 2 }", "{ 3 }", "x.y", "a[0]", "(1, 2)", "[1, 2]", "&mut 0", "1 < 2", "loop {}", "return", "_"]
+FRAG_TYPES = ["u8", "dyn Tr + Send", "&'static str", "fn(u8) -> u8", "[u8; 2]", "impl Tr", "(u8, u8)", "*const u8", "Vec<T>", "T", "&'a T",
+              "for<'b> fn(&'b u8)", "!", "_", "<T as Tr>::A", "dyn for<'b> Tr2<'b>", "Self", "[T]"]
+
+
+def fragment_reqs():
+    """Inputs as they reach the macro from inside a macro_rules! body: `$e:expr` / `$t:ty` fragments are groups without
+    delimiters (written `__dx_none(..)` here; dxmon turns them into real ones).  Fixed list: every fragment in every position."""
+    N = lambda x: f"__dx_none({x})"
+    CMP = "PartialEq, Eq, PartialOrd, Ord, Hash"
+    ALL = "Clone, Debug, Default, " + CMP
+    out = []
+    for e in FRAG_EXPRS:
+        n = N(e)
+        for attr, item in (
+                ("Default", f"struct X {{ #[default({n})] a: u8, b: u8 }}"), ("Default", f"struct X(#[default(2 * {n})] u8);"),
+                ("Default, Clone", f"struct X<T> {{ #[default({n}, bound())] a: T }}"), ("Default", f"struct X(#[default({n}.abs())] i8, #[default({n} + 1)] i8);"),
+                ("Default, Debug", f"#[default({n})] struct X(u8);"), ("Default", f"#[default({n})] enum E {{ A, B(u8) }}"),
+                ("Default", f"enum E {{ A, #[default] B {{ #[default({n})] x: u8 }} }}"), ("Default", f"#[default(({n}))] struct X(u8);"),
+                (CMP, f"struct X {{ #[ord(key = {n})] a: u8 }}"), (CMP, f"struct X(#[eq(by = {n})] #[ord(by = {n})] #[hash(by = {n})] u8);"),
+                (CMP, f"struct X(#[ord(key = $.len() + {n})] String);"), (CMP, f"enum E {{ A(#[ord(key = {n}, reverse)] u8), B }}"),
+                ("PartialEq, Hash", f"struct X(#[partial_eq(key = {n})] #[hash(key = - {n})] u8);"),
+                ("Clone, Debug, PartialEq, Default", f"#[repr(u8)] enum E {{ #[default] A = {n}, B = 2 * {n}, C(u8) = {n} }}"),
+                (ALL + ", Add, Neg, AddAssign", f"struct X([u8; {n}], [u8; 2 * {n}]);"), (ALL, f"struct X<const K: usize = {n}>([u8; K]);"),
+                ("Add, AddAssign", f"impl Add<[u8; {n}]> for X {{ type Output = X; fn add(self, rhs: [u8; {n}]) -> X {{ {n} }} }}"),
+                ("Clone(bound(T: Tr<{{ {e} }}>))".replace("{ " + e + " }", "{ " + n + " }"), "struct X<T>(T);"),
+                (f"Clone, dump, bound([u8; {n}])", "struct X<T>(T);")):
+            out.append({"entry": "attr", "attr": attr, "item": item})
+    for t in FRAG_TYPES:
+        n = N(t)
+        for attr, item in (
+                (ALL, f"struct X({n});"), (ALL, f"struct X<'a, T>(&'a {n}, Box<{n}>, Option<{n}>, &'a mut {n}, *const {n}, [{n}; 2]);"),
+                (ALL, f"enum E<T> {{ A({n}), B {{ x: {n}, y: T }}, C }}"), ("Deref, DerefMut", f"struct X({n});"), ("Deref, DerefMut", f"struct X<'a> {{ x: &'a {n} }}"),
+                ("Add, Sub, Neg, Not, AddAssign", f"struct X({n}, u8);"), (f"Clone(bound({n})), Debug(bound({n}: Tr))", "struct X<T>(T);"),
+                (f"Clone, Default, bound({n}, ..)", f"struct X<T>(T, #[default(_, bound({n}))] u8);"),
+                ("AddAssign, Sub", f"impl Add<{n}> for X {{ type Output = {n}; fn add(self, rhs: {n}) -> {n} {{ rhs }} }}"),
+                ("AddAssign", f"impl Add for {n} {{ type Output = {n}; fn add(self, rhs: Self) -> Self {{ rhs }} }}"),
+                ("Add, AddAssign", f"impl<'a> Add<&'a {n}> for &'a {n} {{ type Output = {n}; fn add(self, rhs: &'a {n}) -> {n} {{ todo!() }} }}"),
+                ("Add", f"impl<T> AddAssign<{n}> for X<T> where {n}: Tr<Self> {{ fn add_assign(&mut self, rhs: {n}) {{ }} }}")):
+            out.append({"entry": "attr", "attr": attr, "item": item})
+            if not item.startswith("impl"):
+                out.append({"entry": "derive", "attr": "", "item": f"#[derive_ex({attr})] {item}"})
+    return out
 
 
 def rustc_parses_output(out):
@@ -203,6 +251,24 @@ def run(rep, tier, rng):
                               f"two processes expand differently: #[derive_ex({s['attr']})] {s['item'][:200]}",
                               {"entry": s["entry"], "attr": s["attr"], "item": s["item"], "kind": "nondeterministic"})
         rep.evaluations += len(reqs)
+        # macro_rules! fragments (groups without delimiters) in every position derive_ex looks into: no panic, same output twice.
+        # (Whether the output, printed as text, parses is not judged here: printing drops the invisible delimiters.)
+        fr = fragment_reqs()
+        freqs = [dict(r, id=i, none_groups=True, want_out=True) for i, r in enumerate(fr)]
+        fa = C.expand(freqs)
+        fb = C.expand(freqs)
+        for x, y, s in zip(fa, fb, fr):
+            rep.count("fragment_inputs_expanded")
+            rp = {"entry": s["entry"], "attr": s["attr"], "item": s["item"], "none_groups": True}
+            if x.get("status") == "panic":
+                msg = str(x.get("panic_msg")).replace(C.REPO.rstrip("/") + "/", "")
+                rep.violation("C16|panic|fragment|" + msg[-120:], f"panic: {msg} on #[derive_ex({s['attr']})] {s['item'][:200]} (`__dx_none(..)` = a macro fragment)",
+                              dict(rp, kind="panic"))
+            elif x.get("status") == "ok" and (x.get("det") is False or x.get("out") != y.get("out")):
+                rep.violation("C16|nondeterministic|fragment", f"two expansions differ: #[derive_ex({s['attr']})] {s['item'][:200]}", dict(rp, kind="nondeterministic"))
+            elif x.get("status") == "ok":
+                rep.nontrivial.add(("fragment", x.get("out", "")[:40]))
+        rep.evaluations += len(freqs)
     finally:
         import shutil
         shutil.rmtree(work, ignore_errors=True)
